@@ -84,6 +84,21 @@ func WireRecord(t *rapid.T, o *WireOpts, depth int) ref.Schema {
 		lo = 0
 	}
 	n := UniformRange(t, "nfields", lo, 5)
+	if depth <= 1 && Uniform(t, "wideRecord", 40) == 0 {
+		// a wide table: more columns than fit one machine word of flags, or one byte of index
+		n = []int{64, 65, 66, 100, 130, 257, 300}[Uniform(t, "wideN", 7)]
+		for i := 0; i < n; i++ {
+			ft := wirePrim(t, o)
+			if i%9 == 4 {
+				ft = ref.Schema{Kind: "union", Branches: []ref.Schema{ref.Prim("null"), wirePrim(t, o)}}
+				if ft.Branches[1].Kind == "null" {
+					ft.Branches[1] = ref.Prim("string")
+				}
+			}
+			s.Fields = append(s.Fields, ref.Field{Name: fmt.Sprintf("f%d", i), Type: ft})
+		}
+		return s
+	}
 	for i := 0; i < n; i++ {
 		s.Fields = append(s.Fields, ref.Field{Name: fmt.Sprintf("f%d", i), Type: WireSchema(t, o, depth+1)})
 	}
